@@ -12,3 +12,7 @@ LEVEL_NOTE = "Trusts xlrd / xlsxwriter / CPython float and datetime rendering th
 TECHNIQUE = "contract-based deductive verification (VCs from the ast of the real functions, z3/cvc5) + bounded workbook audit"
 from contracts import validio as VIO
 UNITS = [XL.unit_excel_cell_value(), XL.unit_excel_rows(), VIO.unit_raw_rows(), RW.unit_xlsx_row_writer_write_row(), XL.unit_excel_workbooks()]
+from contracts import storage as STO
+UNITS += [STO.unit_auto_rows().also("C16")]
+from contracts import data as D
+UNITS += [D.unit_set_property().also("C16"), D.unit_dataformat_init().also("C16")]
